@@ -43,7 +43,7 @@ POSITIVE_CONSTRUCTS = (
     "viewBox side rounded before the ratio", "equal layers de-duplicated", "ownership of the reused path by name prefix", "takewhile drops",
     "transform composition order reversed", "prefix decided before the hash step", "permuted by the inverse permutation",
     "lookup after the glyph list was overwritten", "hoisted out of the per-master loop", "paired by zip of two sort orders", ": reorder_glyphs(..., ",
-    "_pop_flag(file ", "rebound after the fixed_safe test", "added parameter",
+    "_pop_flag(file ", "rebound after the fixed_safe test", "added parameter", "emitted without a unit-scale test",
 )
 
 
